@@ -222,6 +222,8 @@ func run(d doc, withGen bool) (res result) {
 			res.Expand = "API of the expanded spec differs: " + firstDiff(sb1.String(), sb2.String())
 			if stripExamples(sb1.String()) == stripExamples(sb2.String()) {
 				res.ExpandCause = "examples-dropped"
+			} else if strings.ReplaceAll(sb1.String(), "XOgenCustomSecurity:true", "XOgenCustomSecurity:false") == sb2.String() {
+				res.ExpandCause = "custom-security-extension-dropped"
 			}
 		}
 	}
@@ -697,6 +699,15 @@ func bases() []baseDoc {
 			M{"pathItems": M{"P": M{"get": M{"responses": M{"200": M{"description": "ok"}}}}, "Q": M{"parameters": []any{M{"name": "id", "in": "path", "required": true, "schema": strS}}, "get": M{"responses": M{"200": R("#/components/responses/R")}}}}, "responses": M{"R": M{"description": "r"}}}, "3.1.0"))
 	add("securityScheme reference",
 		base(M{"/a": M{"get": op("a", M{"security": []any{M{"K": []any{}}}})}}, M{"securitySchemes": M{"K": R("#/components/securitySchemes/K2"), "K2": M{"type": "apiKey", "in": "header", "name": "X-K"}}}, "3.0.3"))
+	add("security schemes of every kind through references",
+		base(M{"/a": M{"get": op("a", M{"security": []any{M{"O": []any{"read"}}, M{"B": []any{}, "C": []any{}}}})}, "/b": M{"get": op("b", M{"security": []any{M{"O": []any{"read", "write"}, "Q": []any{}}, M{"X": []any{}}, M{"I": []any{}}}})}},
+			M{"securitySchemes": M{
+				"O": R("#/components/securitySchemes/O2"), "O2": M{"type": "oauth2", "description": "oauth", "flows": M{"authorizationCode": M{"authorizationUrl": "https://x/a", "tokenUrl": "https://x/t", "refreshUrl": "https://x/r", "scopes": M{"read": "r", "write": "w"}}, "clientCredentials": M{"tokenUrl": "https://x/t2", "scopes": M{"read": "r"}}}},
+				"B": R("#/components/securitySchemes/B2"), "B2": M{"type": "http", "scheme": "bearer", "bearerFormat": "JWT"},
+				"C": R("#/components/securitySchemes/C2"), "C2": M{"type": "apiKey", "in": "cookie", "name": "sid", "description": "cookie"},
+				"Q": R("#/components/securitySchemes/Q2"), "Q2": M{"type": "apiKey", "in": "query", "name": "k"},
+				"X": R("#/components/securitySchemes/X2"), "X2": M{"type": "apiKey", "in": "header", "name": "X-C", "x-ogen-custom-security": true},
+				"I": R("#/components/securitySchemes/I2"), "I2": M{"type": "http", "scheme": "basic"}}}, "3.0.3"))
 	add("everything at once",
 		base(M{
 			"/a/{id}": M{"parameters": []any{R("#/components/parameters/ID")}, "post": op("a", M{"parameters": []any{R("#/components/parameters/P")}, "requestBody": R("#/components/requestBodies/B"), "responses": M{"200": R("#/components/responses/R"), "default": R("#/components/responses/D")}})},
